@@ -143,6 +143,8 @@ def step (st : St) (line : String) : St × String :=
         | none => (st, "bad-op")
       | "dropmux", [] => let (e, r) := appDropMux e; finish st n e r []
       | "deliver", w =>
+        -- nothing arrives any more once the source has ended or failed
+        if e.srcEnded || e.inbox.any (fun x => x == .eof || x == .err) then finish st n e .unit [] else
         match parseIn w with
         -- a peer that sends Close then closes the connection: the source ends after the Close
         | some (.msg .close) => finish st n { e with inbox := e.inbox ++ [.msg .close, .eof] } .unit []
